@@ -1,5 +1,90 @@
-import NibabelModel.Model.C19
+import NibabelModel.Lemmas.C19
 /-! Props/C19 — the property theorems for C19 (statements + proofs; helper lemmas live in Lemmas/). -/
 namespace Nb.C19
+open Nb.Gen.C19
+
+/-- **Geometry round trip.**  For every mesh (any number of vertices/faces below the int32 count limit of
+    the reader, coordinates as arbitrary float32 patterns, faces as arbitrary int32 values), every create
+    stamp without a newline and every volume-info dictionary of the property's domain (`VolOk`), reading
+    back what `write_geometry` wrote returns exactly the stamp, counts, coordinates, faces and (when
+    `read_metadata`) the volume info. -/
+theorem geometry_roundtrip (rm : Bool) (stamp : Bytes) (nv nf : Nat) (coords : List Nat) (faces : List Int)
+    (vol : Option VolInfo)
+    (hs : 10 ∉ stamp) (hc : coords.length = 3 * nv) (hf : faces.length = 3 * nf)
+    (hnv : 3 * nv < 2147483648) (hnf : 3 * nf < 2147483648)
+    (hcb : ∀ x ∈ coords, x < 4294967296) (hfb : ∀ x ∈ faces, inI32 x = true)
+    (hvol : ∀ vi, vol = some vi → VolOk vi) :
+    (writeGeometry stamp nv nf coords faces vol).bind (readGeometry rm)
+      = .ok ⟨stamp, nv, nf, coords, faces, if rm then vol else none⟩ := by
+  have hfb' : ∀ x ∈ faces, -2147483648 ≤ x ∧ x < 2147483648 := fun x hx => (inI32_iff x).1 (hfb x hx)
+  have g : ¬ (nv ≥ 2147483648 ∨ nf ≥ 2147483648) := by omega
+  cases vol with
+  | none =>
+    have := readGeometry_body rm stamp nv nf coords faces [] hs hc hf hnv hnf hcb hfb'
+    rw [List.append_nil] at this
+    simp only [writeGeometry, g, if_false, Except.bind, this]
+    cases rm <;> rfl
+  | some vi =>
+    obtain ⟨f, h1, h2⟩ := rdVolInfo_serialize vi (hvol vi rfl)
+    have := readGeometry_body rm stamp nv nf coords faces f hs hc hf hnv hnf hcb hfb'
+    simp only [writeGeometry, g, if_false, h1, Except.bind, List.append_assoc, List.cons_append, this, h2]
+    cases rm <;> rfl
+
+private def exVol : VolInfo :=
+  ⟨[2, 0, 20], [49], [97, 46, 109, 103, 122], [[50, 53, 54], [50, 53, 54], [49]],
+    [[49], [48, 46, 53], [49]], [[45, 49], [48], [48]], [[48], [48], [45, 49]], [[48], [49], [48]],
+    [[49, 101, 45, 49, 48], [50], [51]]⟩
+
+private theorem exVol_ok : VolOk exVol :=
+  ⟨Or.inr rfl, by decide, by decide,
+   ⟨_, _, _, rfl, by decide, by decide, by decide⟩, ⟨_, _, _, rfl, by decide, by decide, by decide⟩,
+   ⟨_, _, _, rfl, by decide, by decide, by decide⟩, ⟨_, _, _, rfl, by decide, by decide, by decide⟩,
+   ⟨_, _, _, rfl, by decide, by decide, by decide⟩, ⟨_, _, _, rfl, by decide, by decide, by decide⟩⟩
+
+/-- non-vacuity: a one-triangle mesh with stamp "hi", ±1/0 coordinates, extreme face values and a full
+    volume-info dictionary satisfies every hypothesis -/
+example : (writeGeometry [104, 105] 1 1 [1065353216, 0, 3212836864] [0, -1, 2147483647] (some exVol)).bind
+      (readGeometry true)
+    = .ok ⟨[104, 105], 1, 1, [1065353216, 0, 3212836864], [0, -1, 2147483647], some exVol⟩ :=
+  geometry_roundtrip true [104, 105] 1 1 [1065353216, 0, 3212836864] [0, -1, 2147483647] (some exVol)
+    (by decide) rfl rfl (by decide) (by decide) (by decide) (by decide)
+    (fun vi h => by cases h; exact exVol_ok)
+
+/-- **Morphometry round trip.**  Every accepted shape ((n,), (n,1), (1,n), (n,1,1) for every n < 2^31)
+    with any face count in int32 range reads back the flat vector of the same float32 patterns. -/
+theorem morph_roundtrip (shape : List Nat) (vals : List Nat) (fnum : Int)
+    (hacc : morphAccepts shape = true) (hlen : vals.length = prod shape)
+    (hn : prod shape ≤ 2147483647) (hf : inI32 fnum = true) (hv : ∀ x ∈ vals, x < 4294967296) :
+    (writeMorph shape vals fnum).bind readMorph = .ok vals := by
+  have hf' := (inI32_iff fnum).1 hf
+  have hn' : ¬ (prod shape > 2147483647) := by omega
+  simp only [writeMorph, hacc, hf, hn', Bool.not_true, Bool.false_eq_true, Except.bind, ↓reduceIte]
+  simp only [readMorph, morphMagicBytes, morphMagic, List.cons_append, List.nil_append, rdMagic3]
+  have h3 : rdI32s 3 (encI32 (prod shape : Int) ++ (encI32 fnum ++ (encI32 1 ++ encU32s vals)))
+      = .ok ([(prod shape : Int), fnum, 1], encU32s vals) := by
+    have := rdI32s_enc [(prod shape : Int), fnum, 1] (encU32s vals) (by
+      intro x hx
+      simp only [List.mem_cons, List.not_mem_nil, or_false] at hx
+      rcases hx with rfl | rfl | rfl <;> omega)
+    simpa [encI32s, List.append_assoc] using this
+  simp only [show (255 * 65536 + 255 * 256 + 255 : Nat) = 16777215 from rfl, ne_eq, not_true_eq_false, if_false, h3]
+  have hnn : ¬ ((prod shape : Int) < 0) := by omega
+  simp only [hnn, if_false, Int.toNat_natCast]
+  have := rdU32s_enc vals [] hv
+  rw [List.append_nil, hlen] at this
+  simp only [this]
+
+example : (writeMorph [3, 1, 1] [1065353216, 2147483648, 8388607] 7).bind readMorph
+    = .ok [1065353216, 2147483648, 8388607] :=
+  morph_roundtrip [3, 1, 1] [1065353216, 2147483648, 8388607] 7 (by decide) rfl (by decide) (by decide) (by decide)
+
+/-- the accepted shapes are exactly the four documented vector layouts, for every length -/
+theorem morph_accepts_iff (shape : List Nat) :
+    morphAccepts shape = true ↔ ∃ n, shape = [n] ∨ shape = [n, 1] ∨ shape = [1, n] ∨ shape = [n, 1, 1] := by
+  constructor
+  · intro h
+    refine ⟨prod shape, ?_⟩
+    simpa [morphAccepts, or_assoc] using h
+  · rintro ⟨n, rfl | rfl | rfl | rfl⟩ <;> simp [morphAccepts, prod]
 
 end Nb.C19
